@@ -92,6 +92,13 @@ def _features_wo_citation(prod):
 def execute(mat, ctx):
     ctx.count("evaluations")
     before = ctx.counters["c10_products_with_surviving_citations"]
+    if len(mat["modules"]) >= 2 and (len(mat["vector"]["seq"]) + len(mat["modules"])) % 4 == 0:
+        # two different plasmids that carry the same identifier (both still "<unknown id>", two exports called alike)
+        mat = copy.deepcopy(mat)
+        same_id = ["<unknown id>", "Exported", mat["modules"][0]["id"]][len(mat["vector"]["seq"]) % 3]
+        for ms in mat["modules"][:2]:
+            ms["id"] = ms["name"] = same_id
+        ctx.count("c10_cases_with_two_inputs_of_one_id")
     vrec = gen.make_record(mat["vector"])
     mrecs = [gen.make_record(m) for m in mat["modules"]]
     first = None
